@@ -71,6 +71,77 @@ Theorem C18_many_errors_on_other_input_refuted :
     parse_openssl_25519_pubkeys_pem_many ed_to_mont PUB_KEY_PREFIX = Ok [].
 Proof. exact many_ok_on_garbage. Qed.
 
+(* ====================================================================================== *)
+(* Tie A, level 1 (work package capiT): gen/Src3k.v is curve25519-parser/src/lib.rs translated
+   statement by statement on this run (tools/src2v3_keys.py); the translated functions ARE the
+   model's, for every byte string *)
+From MLA Require SrcTie3Keys.
+From MLAGen Require Src3k.
+Theorem C18_tie_constants :
+  Src3k.K.ED_25519_OID = ED_25519_OID /\ Src3k.K.X_25519_OID = X_25519_OID /\
+  Src3k.K.TAG_OCTETSTRING = TAG_OCTETSTRING /\
+  Src3k.K.PUBLIC_TAG = PUBLIC_TAG /\ Src3k.K.PRIVATE_TAG = PRIVATE_TAG /\
+  Src3k.K.PRIV_KEY_PREFIX = PRIV_KEY_PREFIX /\ Src3k.K.PUB_KEY_PREFIX = PUB_KEY_PREFIX /\
+  Src3k.K.PRIV_KEY_TAG = PRIVATE_TAG /\ Src3k.K.PUB_KEY_TAG = PUBLIC_TAG.
+Proof. exact SrcTie3Keys.keys_constants_src. Qed.
+Theorem C18_tie_der_structures : forall i,
+  Src3k.parse_25519_private_header i = parse_25519_header i /\
+  Src3k.parse_25519_public_header i = parse_25519_header i /\
+  (do vr <- Src3k.parse_25519_private i; Ok (fst vr)) = parse_25519_private i /\
+  (do vr <- Src3k.parse_25519_public i; Ok (fst vr)) = parse_25519_public i.
+Proof.
+  exact (fun i => conj (SrcTie3Keys.parse_25519_private_header_src i) (conj (SrcTie3Keys.parse_25519_public_header_src i)
+           (conj (SrcTie3Keys.parse_25519_private_src i) (SrcTie3Keys.parse_25519_public_src i)))).
+Qed.
+Theorem C18_tie_privkey_der : forall sha512 data,
+  Src3k.parse_openssl_25519_privkey_der sha512 SITE_LIB_138 SITE_LIB_145 SITE_LIB_147 data = parse_openssl_25519_privkey_der sha512 data.
+Proof. exact SrcTie3Keys.parse_openssl_25519_privkey_der_src. Qed.
+Theorem C18_tie_pubkey_der : forall ed_to_mont data,
+  Src3k.parse_openssl_25519_pubkey_der ed_to_mont data = parse_openssl_25519_pubkey_der ed_to_mont data.
+Proof. exact SrcTie3Keys.parse_openssl_25519_pubkey_der_src. Qed.
+(* PEM first, DER only when pem::parse fails — the K18 open finding is in the SOURCE as translated *)
+Theorem C18_tie_pubkey : forall ed_to_mont data,
+  Src3k.parse_openssl_25519_pubkey ed_to_mont data = parse_openssl_25519_pubkey ed_to_mont data.
+Proof. exact SrcTie3Keys.parse_openssl_25519_pubkey_src. Qed.
+Theorem C18_tie_privkey : forall sha512 data,
+  Src3k.parse_openssl_25519_privkey sha512 SITE_LIB_138 SITE_LIB_145 SITE_LIB_147 data = parse_openssl_25519_privkey sha512 data.
+Proof. exact SrcTie3Keys.parse_openssl_25519_privkey_src. Qed.
+Theorem C18_tie_pubkeys_pem_many : forall ed_to_mont data,
+  Src3k.parse_openssl_25519_pubkeys_pem_many ed_to_mont data = parse_openssl_25519_pubkeys_pem_many ed_to_mont data.
+Proof. exact SrcTie3Keys.parse_openssl_25519_pubkeys_pem_many_src. Qed.
+Theorem C18_tie_export : forall x25519_base seed kp,
+  Src3k.generate_keypair x25519_base seed = generate_keypair_from_seed x25519_base seed /\
+  Src3k.private_as_pem (fst kp) = private_as_pem kp /\ Src3k.public_as_pem (snd kp) = public_as_pem kp.
+Proof. exact (fun b s kp => conj (SrcTie3Keys.generate_keypair_src b s) (SrcTie3Keys.as_pem_src kp)). Qed.
+(* carried over: the TRANSLATED parsers never crash on any byte string; exported keys in a bundle come back in order *)
+Theorem C18_parse_total_src : forall sha512 ed_to_mont, (forall b, 32 <= len (sha512 b)) -> forall b,
+  nocrash (Src3k.parse_openssl_25519_privkey_der sha512 SITE_LIB_138 SITE_LIB_145 SITE_LIB_147 b) /\
+  nocrash (Src3k.parse_openssl_25519_pubkey_der ed_to_mont b) /\
+  nocrash (Src3k.parse_openssl_25519_privkey sha512 SITE_LIB_138 SITE_LIB_145 SITE_LIB_147 b) /\
+  nocrash (Src3k.parse_openssl_25519_pubkey ed_to_mont b) /\
+  nocrash (Src3k.parse_openssl_25519_pubkeys_pem_many ed_to_mont b).
+Proof. exact (fun s e => SrcTie3Keys.parse_total_src s e (fun x => x)). Qed.
+Theorem C18_pem_many_order_src : forall ed_to_mont ks,
+  Forall (fun k => length k = 32%nat /\ wf_bytes k) ks ->
+  Src3k.parse_openssl_25519_pubkeys_pem_many ed_to_mont
+    (concat (map (fun k => Src3k.public_as_pem (export_pub_der k)) ks)) = Ok ks.
+Proof. exact SrcTie3Keys.pem_many_order_src. Qed.
+Theorem C18_generated_keypair_parses_back_src : forall sha512 ed_to_mont x25519_base seed,
+  length seed = 32%nat -> wf_bytes seed -> length (x25519_base seed) = 32%nat -> wf_bytes (x25519_base seed) ->
+  let kp := Src3k.generate_keypair x25519_base seed in
+  Src3k.parse_openssl_25519_privkey_der sha512 SITE_LIB_138 SITE_LIB_145 SITE_LIB_147 (fst kp) = Ok seed /\
+  Src3k.parse_openssl_25519_pubkey_der ed_to_mont (snd kp) = Ok (x25519_base seed) /\
+  Src3k.parse_openssl_25519_privkey sha512 SITE_LIB_138 SITE_LIB_145 SITE_LIB_147 (Src3k.private_as_pem (fst kp)) = Ok seed /\
+  Src3k.parse_openssl_25519_pubkey ed_to_mont (Src3k.public_as_pem (snd kp)) = Ok (x25519_base seed).
+Proof. exact SrcTie3Keys.generated_keypair_parses_back_src. Qed.
+(* non-vacuity: the translated bundle parser on two exported keys (the same key twice: repeats are kept) *)
+Example C18_tie_nonvacuous :
+  let k := repeat 7 32 in
+  Src3k.parse_openssl_25519_pubkeys_pem_many (fun _ => None)
+    (Src3k.public_as_pem (export_pub_der k) ++ Src3k.public_as_pem (export_pub_der k)) = Ok [k; k].
+Proof. vm_compute. reflexivity. Qed.
+
+
 Print Assumptions C18_parse_export_priv.
 Print Assumptions C18_parse_export_pub.
 Print Assumptions C18_b64_decode_encode.
@@ -80,3 +151,14 @@ Print Assumptions C18_parse_total.
 Print Assumptions C18_generated_keypair_parses_back.
 Print Assumptions C18_pem_der_identical_refuted.
 Print Assumptions C18_many_errors_on_other_input_refuted.
+Print Assumptions C18_tie_constants.
+Print Assumptions C18_tie_der_structures.
+Print Assumptions C18_tie_privkey_der.
+Print Assumptions C18_tie_pubkey_der.
+Print Assumptions C18_tie_pubkey.
+Print Assumptions C18_tie_privkey.
+Print Assumptions C18_tie_pubkeys_pem_many.
+Print Assumptions C18_tie_export.
+Print Assumptions C18_parse_total_src.
+Print Assumptions C18_pem_many_order_src.
+Print Assumptions C18_generated_keypair_parses_back_src.
